@@ -126,22 +126,27 @@ func c05RunConc(t rt.TB, c c05Conc) {
 				keys = append(keys[:6], fmt.Sprintf("... (%d admissible outputs)", len(adm)))
 			}
 			class := "output-matches-no-arrival-order"
+			// One emission missing, the rest being an admissible output with the same
+			// ending: a value was taken out of the operator's state under its lock and
+			// the terminal notification (or a later emission followed by it) overtook it
+			// before it was emitted. Tested first: when both readings fit, this is the one
+			// that explains a lost value.
+			if c05OneMissing(got, admTraces) {
+				class = "one-emission-overtaken-by-the-terminal"
+			}
 			// One emission too many, the rest being an admissible output with the same
 			// ending: an emission slipped in between a final flush and the completion
 			// that the definition issues together with it.
 			for i := range got.Vals {
+				if class != "output-matches-no-arrival-order" {
+					break
+				}
 				less := model.Trace{End: got.End, Err: got.Err}
 				less.Vals = append(append([]any{}, got.Vals[:i]...), got.Vals[i+1:]...)
 				if adm[traceKey(less)] {
 					class = "one-emission-between-final-flush-and-completion"
 					break
 				}
-			}
-			// One emission missing, the rest being an admissible output with the same
-			// ending: a value was taken out of the operator's state under its lock and
-			// the terminal notification overtook it before it was emitted.
-			if class == "output-matches-no-arrival-order" && c05OneMissing(got, admTraces) {
-				class = "one-emission-overtaken-by-the-terminal"
 			}
 			// BufferWhen: the same loss when the overtaken buffer was the one taken by the
 			// boundary's own completion (no admissible output has it as an extra emission):
